@@ -325,6 +325,14 @@ def run(ctx):
     sets = []
     for n in range(1, (3 if th else 2) + 1):
         sets += list(itertools.combinations(specs, n))
+    if not th:
+        # quick: of the three-specifier sets those around a point interval (>=v, <=v plus one more),
+        # the shape in which the thorough tier found `>=1.0,<=1.0,!=1.0` accepted as `==1.0`
+        for v in VERS:
+            for third in specs:
+                t = (('>=', v), ('<=', v), third)
+                if third not in t[:2]:
+                    sets.append(t)
     cases = []
     for s in sets:
         for mask in itertools.product((0, 1), repeat=len(s)):
@@ -403,8 +411,26 @@ def _dispatch(sh):
     return {'spec': _spec_shard, 'flag': _flag_shard, 'consumer': _consumer_shard}[k](a)
 
 
+def parse_specs(text):
+    out = []
+    for w in [x for x in text.split(',') if x]:
+        for op in sorted(OPS, key=len, reverse=True):
+            if w.startswith(op):
+                out.append((op, w[len(op):]))
+                break
+    return tuple(out)
+
+
 def replay(rec):
     print(json.dumps(rec, indent=1)[:2500])
-    ctx = core.Ctx('C17', 'quick', 0)
-    run(ctx)
-    return rec['key'] not in ctx._viol
+    c = rec['case']
+    if 'kind' in c:
+        r = _spec_shard([(c['kind'], parse_specs(c['public']), parse_specs(c['private']))])
+        print(r)
+        return all(x[1] is None for x in r)
+    if 'consumer' in c:
+        r = _consumer_shard(c['consumer'])
+    else:
+        r = _flag_shard([(c['include'], c['option'], c['lib'], c['auto_fill'])])
+    print(r)
+    return all(x[1] is None for x in r)
